@@ -72,6 +72,13 @@ impl Stats {
         }
     }
 
+    /// For input-enumeration engines the state digest *is* a digest of the observed result
+    /// (rendered text class, final counters): count it as an observed outcome too.
+    pub fn state_outcome(&mut self, h: u64, nontrivial: bool) {
+        self.state(h, nontrivial);
+        self.outcomes.insert(h);
+    }
+
     pub fn violation(&mut self, v: Violation) {
         *self.class_counts.entry(v.class.clone()).or_insert(0) += 1;
         match self.witnesses.get(&v.class) {
